@@ -524,11 +524,12 @@ class World:
         self.stubs = stubs
         follow = [f.qualname for f in prog.all_funcs() if f.unit.modname in ("cobra.core.model", "cobra.core.reaction", "cobra.core.metabolite", "cobra.core.species", "cobra.core.gene", "cobra.core.group", "cobra.core.object", "cobra.util.context", "cobra.util.solver", "cobra.manipulation.delete", "cobra.manipulation.modify")
                   and not f.qualname.startswith(("cobra.core.gene.GPR", "cobra.core.gene.GPRCleaner", "cobra.core.gene.GPRWalker", "cobra.core.dictlist"))]
-        self.it = Interp(prog, (_S, RealMethods, _BoundReal, Lin, _Var), follow, stubs, globals_={"Zero": Lin(), "str": str, "list": list, "dict": dict, "set": set, "frozenset": frozenset, "tuple": tuple, "float": float, "int": int, "bool": bool}, max_depth=30)
+        self.it = Interp(prog, (_S, RealMethods, _BoundReal, Lin, _Var), follow, stubs, globals_={"Zero": Lin()}, max_depth=30)
         it = self.it
         stubs = self.stubs = it.stubs   # the interpreter keeps its own table: extend that one
         it.missing_attr_raises = True   # the stand-ins are complete: an attribute they lack is an AttributeError
         it.apply_decorators = True      # @resettable is evaluated from the source
+        it.strict_calls = True          # a call nothing models stops the evaluation (never a silent no-op)
         mk = {}
         for name, mod in (("Model", "cobra.core.model"), ("Reaction", "cobra.core.reaction"), ("Metabolite", "cobra.core.metabolite"), ("Gene", "cobra.core.gene"), ("Group", "cobra.core.group"), ("HistoryManager", "cobra.util.context")):
             ci = u[mod].classes.get(name)
